@@ -420,9 +420,9 @@ static bool sim_always_deviates(const std::string &proto) { return proto == "gjk
 
 // ---------------------------------------------------------------------------------------------------------------------
 // the alphabet
-struct Ref { std::vector<int> events, bcasts; std::vector<std::vector<int> > ucount; };
+struct Ref { std::vector<int> events, bcasts; std::vector<std::vector<int> > ucount; std::vector<std::string> evkind; };
 
-static void coin_patterns(const std::vector<int> &layout, bool rest_matters, std::vector<Dev> &out)
+static void coin_patterns(const std::vector<int> &layout, bool rest_matters, std::vector<Dev> &out, bool minimal = false)
 {
 	int total = 0;
 	for (size_t i = 0; i < layout.size(); i++) total += layout[i];
@@ -439,6 +439,14 @@ static void coin_patterns(const std::vector<int> &layout, bool rest_matters, std
 		d.rest = rest_matters ? rest : 0;
 		if (seen.insert(d.id()).second) out.push_back(d);
 	};
+	if (minimal && total > 4)
+	{
+		// the constant coin vectors with either value of the later coins
+		for (int c = 0; c < 2; c++)
+			for (int rest = 0; rest < (rest_matters ? 2 : 1); rest++)
+				if (c || rest) emit(std::vector<int>(total, c), rest);
+		return;
+	}
 	if (total <= 4)
 	{
 		for (int rest = 0; rest < (rest_matters ? 2 : 1); rest++)
@@ -464,73 +472,76 @@ static void coin_patterns(const std::vector<int> &layout, bool rest_matters, std
 	}
 }
 
-// level 0 = quick, 1 = thorough; `lean` = trimmed menu for the expensive configurations (stated in props/C15.json)
-static void single_menu(const Cfg &c, int f, const Ref &ref, Proto &P, int level, bool lean, std::vector<Dev> &out)
+// Menu levels (which one is used where: level_for below and props/C15.json):
+//  3 full  every coin pattern; W, Q, N on every private message; D every recipient; C every event; c after every r-send
+//          (n <= 5, else after the first); M four replacements; I every value 0..n; J every target
+//  2 lean  as 3 but Q on the first value of each pair only, no N, c after the first r-send only, M two replacements,
+//          I values {lowest other party, n}, J lowest other party
+//  1 core  every coin pattern; W on the first value of each pair, every recipient; D every recipient; C every event
+//  0 mini  constant coin vectors; W on the first value of each pair and D, lowest other party only; C at the start of
+//          every own broadcast
+static void single_menu(const Cfg &c, int f, const Ref &ref, Proto &P, int level, std::vector<Dev> &out)
 {
-	const bool thorough = level > 0;
-	coin_patterns(P.coin_layout(f), P.rest_matters(f), out);
+	coin_patterns(P.coin_layout(f), P.rest_matters(f), out, level == 0);
 	int lowest_other = f == 0 ? 1 : 0;
 	for (int r = 0; r < c.n; r++)
 	{
 		if (r == f || !ref.ucount[f][r]) continue;
+		if (level == 0 && r != lowest_other) continue;
 		for (int idx = 0; idx < ref.ucount[f][r]; idx++)
 		{
-			out.push_back(Dev::mk('W', r, idx));
-			if (!lean || idx % 2 == 0) out.push_back(Dev::mk('Q', r, idx));
-			if (thorough && !lean) out.push_back(Dev::mk('N', r, idx));
+			if (level >= 2 || idx % 2 == 0) out.push_back(Dev::mk('W', r, idx));
+			if (level >= 3 || (level == 2 && idx % 2 == 0)) out.push_back(Dev::mk('Q', r, idx));
+			if (level >= 3) out.push_back(Dev::mk('N', r, idx));
 		}
 		out.push_back(Dev::mk('D', r));
 	}
-	for (int e = 0; e < ref.events[f]; e++) out.push_back(Dev::mk('C', e));
+	for (int e = 0; e < ref.events[f]; e++)
+		if (level >= 1 || ref.evkind[f][e] == 'b') out.push_back(Dev::mk('C', e));
+	if (level < 2) return;
 	for (int b = 0; b < ref.bcasts[f]; b++)
 	{
-		if (thorough)
-			for (int j = 1; j < c.n; j++)
-				if (j == 1 || (c.n <= 5 && !lean)) out.push_back(Dev::mk('c', b, j));
+		for (int j = 1; j < c.n; j++)
+			if (j == 1 || (c.n <= 5 && level >= 3)) out.push_back(Dev::mk('c', b, j));
 		out.push_back(Dev::mk('M', b, 0));
 		out.push_back(Dev::mk('M', b, 1));
-		if (thorough && !lean) out.push_back(Dev::mk('M', b, 2)), out.push_back(Dev::mk('M', b, 3));
+		if (level >= 3) out.push_back(Dev::mk('M', b, 2)), out.push_back(Dev::mk('M', b, 3));
 		for (int val = 0; val <= c.n; val++)
-			if ((thorough && !lean) || val == lowest_other || val == c.n) out.push_back(Dev::mk('I', b, val));
+			if (level >= 3 || val == lowest_other || val == c.n) out.push_back(Dev::mk('I', b, val));
 		for (int tg = 0; tg < c.n; tg++)
-			if (tg != f && ((thorough && !lean) || tg == lowest_other)) out.push_back(Dev::mk('J', b, tg));
+			if (tg != f && (level >= 3 || tg == lowest_other)) out.push_back(Dev::mk('J', b, tg));
 	}
 }
 
-// reduced menu of party f when a second party g is faulty as well
-static void pair_menu(const Cfg &c, int f, int g, const Ref &ref, Proto &P, std::vector<Dev> &out)
+// which menu a configuration gets
+static int level_for(const std::string &proto, int n, bool thorough)
+{
+	if (proto == "cdkg") return thorough ? (n <= 4 ? 2 : (n == 5 ? 1 : 0)) : (n <= 4 ? 0 : -1);   // -1: fault-free run only
+	if (!thorough) return n <= 4 ? 2 : 1;
+	return n <= 5 ? 3 : (n == 6 ? 1 : 2);
+}
+
+// reduced menu of party f when a second party g is faulty as well.  small: three deviations, else five
+static void pair_menu(const Cfg &c, int f, int g, const Ref &ref, Proto &P, bool small, std::vector<Dev> &out)
 {
 	std::vector<Dev> coins;
-	coin_patterns(P.coin_layout(f), P.rest_matters(f), coins);
-	// the two constant coin vectors
+	coin_patterns(P.coin_layout(f), P.rest_matters(f), coins, true);
+	// the library's switch with every coin set
 	for (size_t i = 0; i < coins.size(); i++)
 	{
-		bool c0 = true, c1 = true;
+		bool c1 = true;
 		for (size_t ph = 0; ph < coins[i].bits.size(); ph++)
 			for (size_t k = 0; k < coins[i].bits[ph].size(); k++)
-				(coins[i].bits[ph][k] == '0' ? c1 : c0) = false;
-		if ((c0 && coins[i].rest == 0) || (c1 && (coins[i].rest == 1 || !P.rest_matters(f)))) out.push_back(coins[i]);
+				if (coins[i].bits[ph][k] == '0') c1 = false;
+		if (c1 && (coins[i].rest == 1 || !P.rest_matters(f))) out.push_back(coins[i]);
 	}
 	int lowest_honest = -1;
 	for (int r = 0; r < c.n; r++) if (r != f && r != g && ref.ucount[f][r]) { lowest_honest = r; break; }
-	if (lowest_honest >= 0)
-	{
-		out.push_back(Dev::mk('W', lowest_honest, 0));
-		out.push_back(Dev::mk('D', lowest_honest));
-	}
-	if (ref.ucount[f][g]) out.push_back(Dev::mk('W', g, 0));
-	if (ref.events[f] > 0)
-	{
-		std::set<int> pts;
-		pts.insert(0), pts.insert(ref.events[f] / 2), pts.insert(ref.events[f] - 1);
-		for (std::set<int>::iterator it = pts.begin(); it != pts.end(); ++it) out.push_back(Dev::mk('C', *it));
-	}
-	if (ref.bcasts[f] > 0)
-	{
-		out.push_back(Dev::mk('M', 0, 0));
-		if (ref.bcasts[f] > 1) out.push_back(Dev::mk('M', ref.bcasts[f] - 1, 1));
-		if (lowest_honest >= 0) out.push_back(Dev::mk('J', ref.bcasts[f] - 1, lowest_honest));
-	}
+	if (lowest_honest >= 0) out.push_back(Dev::mk('W', lowest_honest, 0));
+	if (ref.events[f] > 0) out.push_back(Dev::mk('C', ref.events[f] / 2));
+	if (small) return;
+	if (lowest_honest >= 0) out.push_back(Dev::mk('D', lowest_honest));
+	if (ref.bcasts[f] > 0 && lowest_honest >= 0) out.push_back(Dev::mk('J', ref.bcasts[f] - 1, lowest_honest));
 }
 
 // ---------------------------------------------------------------------------------------------------------------------
@@ -567,14 +578,14 @@ static void finish_case(World &W, Proto &P, bool reference)
 	R->ok(fresh && (reference || effective));
 	if (!effective && !reference) R->counters["ineffective_deviation"]++;
 	for (int i = 0; i < W.cfg.n; i++) if (W.ps[i].faulty) g_kind_count[std::string(1, W.ps[i].dev.kind)]++;
-	std::string note = "vsecs=" + str(W.vsecs) + " msgs=" + str(W.msgs) + " ret=";
+	std::string note = "vsecs=" + str(W.vsecs) + " msgs=" + str(W.msgs) + " handoffs=" + str(W.handoffs) + " ms=" + str((int)(W.secs * 1000)) + " ret=";
 	for (int i = 0; i < W.cfg.n; i++)
 	{
 		note += (W.ps[i].crashed ? "X" : "");
 		for (size_t ph = 0; ph < W.ps[i].ret.size(); ph++) note += (W.ps[i].ret[ph] < 0 ? "-" : (W.ps[i].ret[ph] ? "1" : "0"));
 		note += i + 1 < W.cfg.n ? "," : "";
 	}
-	if (!reference && (R->evaluations % 97) == 1) R->sample(id, note);
+	if ((!reference && (R->evaluations % 97) == 1) || !R->args.only.empty()) R->sample(id, note);
 }
 
 static bool take(const std::string &id)
@@ -584,7 +595,7 @@ static bool take(const std::string &id)
 	return mine;
 }
 
-static void run_config(Cfg c, bool thorough, bool lean)
+static void run_config(Cfg c, int level, bool small_pairs)
 {
 	// fault-free reference run: judged by one shard, measured by all (it defines the alphabet)
 	Ref ref;
@@ -592,7 +603,7 @@ static void run_config(Cfg c, bool thorough, bool lean)
 		World W(c, &G);
 		std::unique_ptr<Proto> P(make_proto(c, seed_of(c)));
 		run_world(W, *P, seed_of(c));
-		for (int i = 0; i < c.n; i++) ref.events.push_back(W.ps[i].events), ref.bcasts.push_back(W.ps[i].bcasts), ref.ucount.push_back(W.ps[i].ucount);
+		for (int i = 0; i < c.n; i++) ref.events.push_back(W.ps[i].events), ref.bcasts.push_back(W.ps[i].bcasts), ref.ucount.push_back(W.ps[i].ucount), ref.evkind.push_back(W.ps[i].evkind);
 		if (take(W.id()))
 		{
 			printf("{\"t\":\"at\",\"case\":\"%s\"}\n", jesc(W.id()).c_str());
@@ -601,7 +612,7 @@ static void run_config(Cfg c, bool thorough, bool lean)
 			if (c.variant == 0 && c.dealer <= 0) R->sample(W.id(), "reference run: events per party " + str(ref.events[0]) + ", own broadcasts " + str(ref.bcasts[0]) + ", msgs " + str(W.msgs) + ", vsecs " + str(W.vsecs));
 		}
 	}
-	if (c.t == 0 || c.variant != 0) return;
+	if (c.t == 0 || c.variant != 0 || level < 0) return;
 	std::unique_ptr<Proto> P0(make_proto(c, seed_of(c)));
 	auto one = [&](const std::vector<std::pair<int, Dev> > &faults) {
 		World W(c, &G);
@@ -618,7 +629,7 @@ static void run_config(Cfg c, bool thorough, bool lean)
 	for (int f = 0; f < c.n; f++)
 	{
 		std::vector<Dev> menu;
-		single_menu(c, f, ref, *P0, thorough ? 1 : 0, lean, menu);
+		single_menu(c, f, ref, *P0, level, menu);
 		for (size_t k = 0; k < menu.size(); k++)
 			one(std::vector<std::pair<int, Dev> >(1, std::make_pair(f, menu[k])));
 	}
@@ -627,7 +638,7 @@ static void run_config(Cfg c, bool thorough, bool lean)
 			for (int g = f + 1; g < c.n; g++)
 			{
 				std::vector<Dev> mf, mg;
-				pair_menu(c, f, g, ref, *P0, mf), pair_menu(c, g, f, ref, *P0, mg);
+				pair_menu(c, f, g, ref, *P0, small_pairs, mf), pair_menu(c, g, f, ref, *P0, small_pairs, mg);
 				for (size_t a = 0; a < mf.size(); a++)
 					for (size_t b = 0; b < mg.size(); b++)
 					{
@@ -667,7 +678,7 @@ int main(int argc, char **argv)
 		if (only_t >= 0 && c.t != only_t) continue;
 		if (!make_proto(c, 1)) { fprintf(stdout, "{\"t\":\"error\",\"what\":\"unknown --proto\"}\n"); return 2; }
 		int variants = c.t == 0 ? 3 : 1;
-		const bool lean = A.has("lean") ? A.geti("lean", 0) != 0 : (proto == "cdkg" && (c.n >= 6 || !thorough));
+		const int level = A.has("level") ? (int)A.geti("level", 0) : level_for(proto, c.n, thorough);
 		if (proto == "pvss")
 		{
 			for (c.dealer = 0; c.dealer < c.n; c.dealer++)
@@ -676,11 +687,11 @@ int main(int argc, char **argv)
 					// faults are enumerated for the random secret; the special secrets get the fault-free run
 					Cfg cc = c;
 					cc.variant = cc.sigma_kind == 0 ? 0 : 1;
-					run_config(cc, thorough, lean);
+					run_config(cc, level, proto == "cdkg");
 				}
 		}
 		else
-			for (c.variant = 0; c.variant < variants; c.variant++) run_config(c, thorough, lean);
+			for (c.variant = 0; c.variant < variants; c.variant++) run_config(c, level, proto == "cdkg");
 	}
 	rep.bound = proto + (thorough ? ": n<=7" : ": n<=5") + ", |F|<=t, one deviation per faulty party";
 	for (std::map<std::string, uint64_t>::iterator it = g_kind_count.begin(); it != g_kind_count.end(); ++it) rep.counters["dev_" + it->first] = it->second;
